@@ -414,7 +414,77 @@ def rule_counter_reset_and_context(ctx: Ctx) -> None:
     ctx.floor("C03-3", 3)
 
 
+# `global` rebinding sites that are part of the design, one line of reason each
+GLOBAL_ALLOW = {
+    ("happysimulator/core/event.py", "reset_event_counter", "_global_event_counter"): "reset at the start of every Simulation (C03-3)",
+    ("happysimulator/core/event.py", "_advance_global_event_counter", "_global_event_counter"): "only ever advanced; indices matter relatively within one heap (C01-8)",
+    ("happysimulator/core/event.py", "enable_event_tracing", "_event_tracing_enabled"): "observer flag (C04-2: tracing blocks only observe)",
+    ("happysimulator/core/event.py", "disable_event_tracing", "_event_tracing_enabled"): "observer flag (C04-2)",
+    ("happysimulator/utils/ids.py", "get_id", "_counter"): "label generator: ids are never ordered or used for placement",
+}
+
+
+def rule_process_global_state(ctx: Ctx) -> None:
+    """C03-4: nothing a simulation mutates is shared between simulations through module- or class-level containers."""
+    from ..effects import MUTATORS
+    from ..model import _kind_of_value
+
+    prog = ctx.prog
+    n_mod = 0
+    for rel, mod in prog.modules.items():
+        if not rel.startswith(SCOPE):
+            continue
+        n_mod += 1
+        mglob = {}
+        for st in mod.tree.body:
+            if isinstance(st, (ast.Assign, ast.AnnAssign)):
+                t = st.targets[0] if isinstance(st, ast.Assign) else st.target
+                if isinstance(t, ast.Name) and st.value is not None and _kind_of_value(st.value)[0] in ("list", "dict", "set", "deque"):
+                    mglob[t.id] = st
+        cattrs = {}
+        for c in mod.classes.values():
+            for st in c.node.body:
+                if isinstance(st, (ast.Assign, ast.AnnAssign)):
+                    t = st.targets[0] if isinstance(st, ast.Assign) else st.target
+                    if isinstance(t, ast.Name) and st.value is not None and _kind_of_value(st.value)[0] in ("list", "dict", "set", "deque"):
+                        cattrs[(c.name, t.id)] = st
+        for fn in mod.all_functions:
+            for n in walk_scope(fn.node, include_root=False):
+                recvs = []
+                if isinstance(n, ast.Call) and isinstance(n.func, ast.Attribute) and n.func.attr in MUTATORS:
+                    recvs.append(n.func.value)
+                elif isinstance(n, (ast.Assign, ast.AugAssign, ast.Delete)):
+                    for t in (n.targets if isinstance(n, (ast.Assign, ast.Delete)) else [n.target]):
+                        if isinstance(t, ast.Subscript):
+                            recvs.append(t.value)
+                for recv in recvs:
+                    p = path_of(recv)
+                    if p is None:
+                        continue
+                    shared = None
+                    if p in mglob and p not in fn.params():
+                        shared = f"module-level container `{p}`"
+                    elif fn.cls is not None and p.startswith("self.") and (fn.cls.name, p[5:]) in cattrs and not any(
+                            isinstance(s2, (ast.Assign, ast.AnnAssign)) and path_of(s2.targets[0] if isinstance(s2, ast.Assign) else s2.target) == p
+                            for m in fn.cls.methods.values() for s2 in walk_stmts(m.node.body)):
+                        shared = f"class-level container `{fn.cls.name}.{p[5:]}` (never re-bound per instance)"
+                    elif fn.cls is not None and (p.startswith(fn.cls.name + ".") or p.startswith("cls.") or p.startswith("type(self).")):
+                        shared = f"class attribute `{p}`"
+                    if shared:
+                        ctx.ob("C03-4", "G7", fn, f"mutates {shared}", False,
+                               f"{fn.qual} mutates a {shared}: its contents survive from one simulation to the next in the same interpreter, so a run depends on what ran before it", node=n)
+            for st in walk_stmts(fn.node.body):
+                if isinstance(st, ast.Global):
+                    for nm in st.names:
+                        why = GLOBAL_ALLOW.get((rel, fn.qual, nm))
+                        ctx.ob("C03-4", "G7", fn, f"global {nm}", why is not None,
+                               f"{fn.qual} rebinds module global `{nm}`" + (f" — allowed: {why}" if why else ": process-wide state that outlives a simulation"), node=st)
+    ctx.ob("C03-4", "G7", None, "package-wide shared-state scan", True, f"{n_mod} modules scanned for module-/class-level containers mutated at run time", relpath="happysimulator/")
+    ctx.floor("C03-4", 5)
+
+
 def run(ctx: Ctx) -> None:
     ctx.guarded(rule_sources)
     ctx.guarded(rule_set_iteration)
     ctx.guarded(rule_counter_reset_and_context)
+    ctx.guarded(rule_process_global_state)
